@@ -1,6 +1,7 @@
 package reputil
 
 import (
+	"sort"
 	"context"
 	"net"
 	"strconv"
@@ -156,5 +157,96 @@ func runWireHistoryOnce(args []string) []string {
 	if len(out) == 0 {
 		return []string{"empty"}
 	}
+	return out
+}
+
+// RunWirePar <k> <rounds>: k reporters (sockets bound to 127.0.1.1 … 127.0.1.k, each with its own instance id and host
+// port) send a heartbeat at the same moment, rounds times, to the real reporter component; each reads its own reply.
+// The handlers of concurrent datagrams run on their own goroutines: every reply must be the one for its own sender
+// (its instance id, its source address and port).  Output: one token per distinct reply a socket received,
+// `<ip>:<port>:<idhex>:<replyhex>` (`none` for a missing reply).
+func RunWirePar(k, rounds int) []string {
+	w, release := FreshWorld()
+	defer release()
+	p := w.NewProc()
+	port, err := freeUDPPort()
+	if err != nil {
+		return []string{"infra:port"}
+	}
+	app := fx.New(
+		fx.NopLogger,
+		fx.Supply(reporterc.Config{ListenAddr: "127.0.0.1:" + strconv.Itoa(port), BufferSize: 2048}),
+		fx.Provide(
+			func() *zerolog.Logger { return p.Logger },
+			func() *metrics.Collector { return p.Metrics },
+			func() clockwork.Clock { return w.Clock },
+			func() reportserver.UseCase { return p.UC.ReportServer },
+			func() removeserver.UseCase { return p.UC.RemoveServer },
+			func() renewserver.UseCase { return p.UC.RenewServer },
+		),
+		reporterc.Module,
+		fx.Invoke(func(*reporterc.Component) {}),
+	)
+	if err := app.Err(); err != nil {
+		return []string{"wiring-error:" + strings.ReplaceAll(err.Error(), " ", "_")}
+	}
+	ctx, cancel := context.WithTimeout(context.Background(), 10*time.Second)
+	defer cancel()
+	if err := app.Start(ctx); err != nil {
+		return []string{"infra:start"}
+	}
+	defer func() { _ = app.Stop(context.Background()) }()
+	server := &net.UDPAddr{IP: net.IPv4(127, 0, 0, 1), Port: port}
+	type sock struct {
+		c       *net.UDPConn
+		id      []byte
+		payload []byte
+		seen    map[string]bool
+	}
+	socks := make([]*sock, k)
+	for i := range socks {
+		c, err := net.DialUDP("udp4", &net.UDPAddr{IP: net.IPv4(127, 0, 1, byte(i+1))}, server)
+		if err != nil {
+			return []string{"infra:bind"}
+		}
+		defer c.Close()
+		id := []byte{0xa0, 0, 0, byte(i + 1)}
+		hb := Heartbeat(id, []KV{
+			{K: []byte("hostname"), V: []byte("Par " + strconv.Itoa(i))}, {K: []byte("hostport"), V: []byte(strconv.Itoa(10480 + i))},
+			{K: []byte("localport"), V: []byte("10481")}, {K: []byte("gamever"), V: []byte("1.1")},
+			{K: []byte("gamevariant"), V: []byte("SWAT 4")}, {K: []byte("gametype"), V: []byte("CO-OP")},
+			{K: []byte("mapname"), V: []byte("M")}, {K: []byte("numplayers"), V: []byte("1")}, {K: []byte("maxplayers"), V: []byte("5")}}, []byte{0})
+		socks[i] = &sock{c: c, id: id, payload: hb, seen: map[string]bool{}}
+	}
+	for r := 0; r < rounds; r++ {
+		start := make(chan struct{})
+		done := make(chan struct{}, k)
+		for _, s := range socks {
+			go func(s *sock) {
+				<-start
+				_, _ = s.c.Write(s.payload)
+				buf := make([]byte, 256)
+				_ = s.c.SetReadDeadline(time.Now().Add(2 * time.Second))
+				if n, err := s.c.Read(buf); err == nil {
+					s.seen[core.Hex(buf[:n])] = true
+				} else {
+					s.seen["none"] = true
+				}
+				done <- struct{}{}
+			}(s)
+		}
+		close(start)
+		for range socks {
+			<-done
+		}
+	}
+	var out []string
+	for _, s := range socks {
+		la := s.c.LocalAddr().(*net.UDPAddr)
+		for reply := range s.seen {
+			out = append(out, la.IP.String()+":"+strconv.Itoa(la.Port)+":"+core.Hex(s.id)+":"+reply)
+		}
+	}
+	sort.Strings(out)
 	return out
 }
